@@ -14,7 +14,7 @@ INTS = [0, 1, -1, 7, 8, 42, 255, -128, 65536, 1000000, -2147483648, 2147483647, 
 FLOATS = [0.0, 1.5, -2.25, 1000.0, 0.001, 123456.789, -0.5, 3.0, 1e10, 2.5e-3]
 STR_ALPHA = list('abcxyzABC019 _-./:') + ['"', '\\', "'", '$', '{', '}', '#', '*', '/', '=', ',', '(', ')', '+', '\n', '\t', '\xe9', '\x01', '\x7f', '\xff', '|']
 TITLES = ['a', 'b', 'c', 'web', 'main', 'T', 'two words', 'x=y', 'q"uote', 'back\\slash', "it's", '', 'A', 'B', '${HOME}', '/*c*/', '#h',
-          'a-title-that-is-longer-than-thirty-two-bytes-for-sure', 'L' * 70]
+          'a-title-that-is-longer-than-thirty-two-bytes-for-sure', 'L' * 70, 'caf\xe9', '\xff\xfe', 'na\xefve title', '\x80', 'tab\there', 'bell\x07']
 
 
 def word_ok(s):
@@ -189,7 +189,7 @@ def gen_schema(rng, so=None, depth=0, counter=None):
         if rng.random() < 0.03:
             name += '_with_a_name_longer_than_thirty_two_bytes'
         if so.oddnames and rng.random() < 0.08:
-            name = rng.choice(['allowed hosts %d', 'ports#tcp%d', 'q"uote%d', "it's %d", 'plus+%d', 'br{ace%d', 'star*%d', 'dollar$%d', 'sl//ash%d', 'comma,%d']) % k
+            name = rng.choice(['allowed hosts %d', 'ports#tcp%d', 'q"uote%d', "it's %d", 'plus+%d', 'br{ace%d', 'star*%d', 'dollar$%d', 'sl//ash%d', 'comma,%d', 'h\xf6he%d', '\xff%d']) % k
         if so.simple and not (fl & F_LIST) and rng.random() < 0.12:
             decls.append(D(name, t, 0, None if t == 'str' else dv, simple=True))
             continue
@@ -233,7 +233,7 @@ def gen_items(rng, decls, toks, depth=0, nitems=None, fancy=True, used_titles=No
                     continue
         name = d.name
         if to.get('nocase') and rng.random() < 0.5:
-            name = ''.join(c.upper() if rng.random() < 0.5 else c.lower() for c in name)
+            name = ''.join((c.upper() if rng.random() < 0.5 else c.lower()) if c.isascii() else c for c in name)
         if d.typ == 'sec':
             toks.append(['name', name if word_ok(name) else spell_string(rng, name, fancy), name])
             if d.flags & F_TITLE:
@@ -296,7 +296,7 @@ def gen_keyvals(rng, d, toks, fancy, to):
     for _ in range(rng.randint(0, 4)):
         key = rng.choice(['alpha', 'beta', 'gamma', 'k1', 'k2', 'path', 'x.y', 'A', 'etc/app.d', 'a-b:c'])
         if to.get('nocase') and rng.random() < 0.4:
-            key = ''.join(c.upper() if rng.random() < 0.5 else c.lower() for c in key)
+            key = ''.join((c.upper() if rng.random() < 0.5 else c.lower()) if c.isascii() else c for c in key)
         if to.get('oddkeys') and rng.random() < 0.3:
             # free-form keys are whatever the text says: also strings that need quotes to be read back
             key = rng.choice(ODD_KEYS)
